@@ -2,9 +2,10 @@ import Copia.Lemmas.HubLInv
 namespace Copia.HubConc
 
 /-- C03 core: every step of the interleaved system is invisible to clients (a stutter of the
-abstract map) or is exactly ONE atomic `specPut` of the stepping process's request. -/
+abstract map) or is exactly ONE atomic `specPut` / `specDel` of the stepping process's request. -/
 theorem step_refines {S init s s'} (wf : WF S) (inv : Inv S init s) (li : LInv S s) (st : Step S s s') :
-    abs S s' = abs S s ∨ ∃ i, abs S s' = specPut S (abs S s) (S.req i) := by
+    abs S s' = abs S s ∨ (∃ i, abs S s' = specPut S (abs S s) (S.req i)) ∨
+      (∃ i, abs S s' = specDel S (abs S s) (S.req i)) := by
   cases st with
   | createFresh i h hn =>
     left; funext p
@@ -50,8 +51,12 @@ theorem step_refines {S init s s'} (wf : WF S) (inv : Inv S init s) (li : LInv S
       simp [upd, hne]
   | lock i fd h hl => left; rfl
   | readCur i fd h => left; rfl
-  | commit i fd cur h hc => right; exact ⟨i, commit_refines wf inv li h hc⟩
-  | conflict i fd cur h hc => right; exact ⟨i, conflict_refines wf inv li h hc⟩
+  | commit i fd cur h hc => right; left; exact ⟨i, commit_refines wf inv li h hc⟩
+  | conflict i fd cur h hc => right; left; exact ⟨i, conflict_refines wf inv li h hc⟩
+  | dLock i h hl => left; rfl
+  | dRead i h => left; rfl
+  | dUnlink i cur h hc => right; right; exact ⟨i, dunlink_refines wf inv li h hc⟩
+  | dKeep i cur h hc => right; right; exact ⟨i, dkeep_refines wf inv li h hc⟩
   | unlock i h => left; rfl
   | kill i => left; rfl
 
@@ -65,5 +70,84 @@ theorem reach_inv {S init s0 s} (wf : WF S) (h0 : Inv S init s0) (l0 : LInv S s0
   induction r with
   | refl => exact ⟨h0, l0⟩
   | step _ st ih => exact ⟨step_inv wf ih.1 st, linv_step wf ih.1 ih.2 st⟩
+
+/-- an inode no staging name points to, below the fresh counter, is never written again -/
+structure Sealed (S : Sys) (s : State) (n : Ino) (c : List Chunk) : Prop where
+  content : s.ino n = c
+  old : n < s.next
+  noStaging : ∀ q, S.staging q = true → s.dir q ≠ some n
+
+theorem sealed_step {S init s s' n c} (wf : WF S) (inv : Inv S init s) (sl : Sealed S s n c) (st : Step S s s') :
+    Sealed S s' n c := by
+  have notfd : ∀ i fd, fdOf (s.pc i) = some fd → fd ≠ n := by
+    intro i fd h e; subst e
+    exact sl.noStaging _ (wf.tmp_staging i (S.req i).dst) (inv.own i _ h)
+  cases st with
+  | createFresh i h hn =>
+    refine ⟨?_, Nat.lt_succ_of_lt sl.old, ?_⟩
+    · have : n ≠ s.next := Nat.ne_of_lt sl.old
+      simp [upd, this, sl.content]
+    · intro q hq
+      simp only [upd]
+      split
+      · intro e; cases e; exact absurd sl.old (Nat.lt_irrefl _)
+      · exact sl.noStaging q hq
+  | createTrunc i m h hn =>
+    have hne : n ≠ m := by
+      intro e; subst e; exact sl.noStaging _ (wf.tmp_staging i (S.req i).dst) hn
+    exact ⟨by simp [upd, hne, sl.content], sl.old, sl.noStaging⟩
+  | write i fd k ch h hc =>
+    have hne : n ≠ fd := Ne.symm (notfd i fd (by rw [h]; rfl))
+    exact ⟨by simp [upd, hne, sl.content], sl.old, sl.noStaging⟩
+  | verifyOk i fd k h hk hh => exact ⟨sl.content, sl.old, sl.noStaging⟩
+  | verifyBad i fd k h hk hh =>
+    refine ⟨sl.content, sl.old, ?_⟩
+    intro q hq; simp only [upd]; split
+    · simp
+    · exact sl.noStaging q hq
+  | lock i fd h hl => exact ⟨sl.content, sl.old, sl.noStaging⟩
+  | readCur i fd h => exact ⟨sl.content, sl.old, sl.noStaging⟩
+  | commit i fd cur h hc =>
+    refine ⟨sl.content, sl.old, ?_⟩
+    intro q hq; simp only [upd]; split
+    · simp
+    · split
+      · next e => rw [e, wf.dst_ns i] at hq; cases hq
+      · exact sl.noStaging q hq
+  | conflict i fd cur h hc =>
+    refine ⟨sl.content, sl.old, ?_⟩
+    intro q hq; simp only [upd]; split
+    · simp
+    · split
+      · next e => rw [e, wf.cname_ns _ _ (wf.dst_ns i)] at hq; cases hq
+      · exact sl.noStaging q hq
+  | unlock i h => exact ⟨sl.content, sl.old, sl.noStaging⟩
+  | kill i => exact ⟨sl.content, sl.old, sl.noStaging⟩
+  | dLock i h hl => exact ⟨sl.content, sl.old, sl.noStaging⟩
+  | dRead i h => exact ⟨sl.content, sl.old, sl.noStaging⟩
+  | dUnlink i cur h hc =>
+    refine ⟨sl.content, sl.old, ?_⟩
+    intro q hq; simp only [upd]; split
+    · simp
+    · exact sl.noStaging q hq
+  | dKeep i cur h hc => exact ⟨sl.content, sl.old, sl.noStaging⟩
+
+theorem reach_trans {S : Sys} {a b c : State} (r1 : Reach S a b) (r2 : Reach S b c) : Reach S a c := by
+  induction r2 with
+  | refl => exact r1
+  | step _ st ih => exact Reach.step ih st
+
+theorem sealed_reach {S init s0 s t n c} (wf : WF S) (h0 : Inv S init s0) (l0 : LInv S s0)
+    (r0 : Reach S s0 s) (sl : Sealed S s n c) (r : Reach S s t) : Sealed S t n c := by
+  induction r with
+  | refl => exact sl
+  | step r' st ih => exact sealed_step wf (reach_inv wf h0 l0 (reach_trans r0 r')).1 ih st
+
+/-- a published inode is sealed -/
+theorem published_sealed {S init s} (wf : WF S) (inv : Inv S init s) (p : Path) (n : Ino)
+    (hp : S.staging p = false) (hd : s.dir p = some n) : Sealed S s n (s.ino n) :=
+  ⟨rfl, inv.fresh _ _ hd, fun q hq e => by
+    have := inv.inj _ _ _ e hd
+    rw [this, hp] at hq; cases hq⟩
 
 end Copia.HubConc
